@@ -237,9 +237,10 @@ def rule_take_axis(ctx):
             continue
         newaxes = cons[0][2][1]
         s = T.show(newaxes)
+        # (the other axes may be copies or the operand's own objects: same labels either way)
         if not (newaxes[0] == 'comp' and newaxes[2][0] == 'ifexp' and newaxes[2][3] == at[0]
-                and newaxes[2][2][0] == 'call' and T.call_name(newaxes[2][2]) == 'copy'):
-            ctx.violated('R3', fi, 'newaxes = ' + s[:140], 'result axes: a copy of every other axis and the taken axis in place of the indexed one', node=p.node)
+                and ((newaxes[2][2][0] == 'call' and T.call_name(newaxes[2][2]) == 'copy' and T.call_receiver(newaxes[2][2])[0] == 'elem') or newaxes[2][2][0] == 'elem')):
+            ctx.violated('R3', fi, 'newaxes = ' + s[:140], 'result axes: every other axis (or a copy of it) and the taken axis in place of the indexed one', node=p.node)
             continue
         cond = newaxes[2][1]
         if not (cond[0] == 'cmp' and cond[1] == '!=' and 'name' in T.show(cond)):
